@@ -81,7 +81,8 @@ def run_c37(ctx):
                 '(rows: legacy format or a password of >= 32 bytes); distinct by abstract action sequence')
     ctx.assumptions += ['AES-CBC / AES-GCM / LevelDB trusted', 'key lengths 32 and 64 bytes',
                         'TLC bounds: 2 accounts, histories of 3-4 steps exhaustively, 8 steps by simulation']
-    ctx.tlc_mc('WalletEnc_MC', 'WalletEnc_MCq.cfg' if q else 'WalletEnc_MC.cfg', workers=2, timeout=3600, coverage=not q)
+    r = ctx.tlc_mc('WalletEnc_MC', 'WalletEnc_MCq.cfg' if q else 'WalletEnc_MC.cfg', workers=2, timeout=3600, coverage=not q)
+    no_dead_actions(r)
     b = vlib.build(DRIVER)
     # decision table
     rows = ctx.tlc_genall('WalletRT', 'WalletRT.cfg', timeout=1800)
@@ -89,7 +90,10 @@ def run_c37(ctx):
     # exhaustive leg: every history of the small configuration
     allb = ctx.tlc_genall('WalletEnc_All', 'WalletEnc_Allq.cfg' if q else 'WalletEnc_All.cfg', timeout=3600)
     ctx.extra['exhaustive_small_config'] = dict(cfg='WalletEnc_Allq.cfg' if q else 'WalletEnc_All.cfg', behaviours=len(allb))
-    ctx.replay(b, allb, opts=dict(sign='secp256k1'), par=8, timeout=7200)
+    s = ctx.replay(b, allb, opts=dict(sign='secp256k1'), par=8, timeout=7200)
+    if not s['mismatches']:
+        replay_selftest(ctx, b, allb, dict(sign='secp256k1'),
+                        lambda st: st.get('op') == 'SetPasswd' and st.get('ret') == 'fail', lambda st: st.update(ret='ok'))
     if not q:
         ctx.replay(b, allb[::5], opts=dict(sign='ed25519', salt=1), par=8, timeout=7200, count=False)
     # deeper histories by simulation, both signature types (ed25519 wallets hold 64-byte keys)
@@ -140,6 +144,32 @@ def replay_quiet(ctx, binary, bs, opts, name):
     return s
 
 
+def no_dead_actions(r):
+    if r.get('zero_actions'):
+        raise vlib.Broken('vacuous model run: actions never taken: %s' % r['zero_actions'][:5])
+
+
+def replay_selftest(ctx, binary, bs, opts, pick, corrupt):
+    """Anti-vacuity of binding A: corrupt one predicted value of one behaviour; the replayer must disagree."""
+    import copy
+    for b0 in bs:
+        idx = [i for i, st in enumerate(b0['steps']) if pick(st)]
+        if not idx:
+            continue
+        bad = copy.deepcopy(b0)
+        bad['id'] = b0['id'] + '-selftest'
+        corrupt(bad['steps'][idx[0]])
+        bad['steps'] = bad['steps'][:idx[0] + 1]
+        s = replay_quiet(ctx, binary, [bad], opts, 'selftest-%d.ndjson' % len(os.listdir(ctx.scratch)))
+        if s['counters'].get('inconclusive_slow_machine'):
+            continue
+        if not s['mismatches']:
+            raise vlib.Broken('binding self-test failed: a behaviour with a corrupted prediction was accepted (%s step %d)' % (b0['id'], idx[0]))
+        ctx.extra['selftest_corrupted_behaviour_rejected'] = True
+        return
+    ctx.notes.append('replay self-test: no suitable behaviour')
+
+
 def run_c38(ctx):
     q = ctx.tier == 'quick'
     ctx.rule = ('behaviours = schedules simulated by TLC from Wallet.tla in GenMode (requests of 3 callers, the password change '
@@ -149,7 +179,8 @@ def run_c38(ctx):
     ctx.assumptions += ['the unlock timer is the real one (schedules abandoned when the machine is too slow are counted)',
                         'TLC bounds: 2-3 callers, 3-4 requests exhaustively']
     # 1. the model of the code as it is must satisfy the property
-    ctx.tlc_mc('Wallet_MC', 'Wallet_MCq.cfg' if q else 'Wallet_MC.cfg', workers=2 if q else 4, timeout=7200, coverage=not q)
+    r = ctx.tlc_mc('Wallet_MC', 'Wallet_MCq.cfg' if q else 'Wallet_MC.cfg', workers=2 if q else 4, timeout=7200, coverage=not q)
+    no_dead_actions(r)
     b = vlib.build(DRIVER)
     # 2. the model of the procedure as originally written is refuted; its counterexamples are candidates
     cands = []
@@ -189,6 +220,11 @@ def run_c38(ctx):
     bs = ctx.tlc_sim('Wallet_MC', 'Wallet_Gen.cfg', num=n, depth=45, timeout=3600)
     s = ctx.replay(b, bs, opts=dict(tmo=2), par=8, timeout=7200)
     inc = s.get('counters', {}).get('inconclusive_slow_machine', 0)
+    # binding self-test: a schedule whose predicted flag is flipped while the change is parked must be rejected
+    if not s['mismatches']:
+        replay_selftest(ctx, b, bs, dict(tmo=2),
+                        lambda st: st.get('op') == 'Step' and st.get('at') == 'sp2' and st['chk']['locked'],
+                        lambda st: st['chk'].update(locked=False))
     if not q:
         for sd in range(1, 3):
             bs2 = ctx.tlc_sim('Wallet_MC', 'Wallet_Gen.cfg', num=n, depth=45, seed=ctx.seed * 100 + sd, timeout=3600)
